@@ -83,6 +83,17 @@ _CMP = {ast.Eq: operator.eq, ast.NotEq: operator.ne, ast.Lt: operator.lt, ast.Lt
 _CMP_NAME = {ast.Eq: "==", ast.NotEq: "!=", ast.Lt: "<", ast.LtE: "<=", ast.Gt: ">", ast.GtE: ">="}
 
 
+def canon_cmp(op, l, r):
+    """Comparison terms in one orientation: > and >= are written with < and <= ; for == / != a concrete operand goes right."""
+    if op == ">":
+        op, l, r = "<", r, l
+    elif op == ">=":
+        op, l, r = "<=", r, l
+    elif op in ("==", "!=") and not isinstance(l, Term) and isinstance(r, Term):
+        l, r = r, l
+    return Term("cmp", op, l, r)
+
+
 def _is_sym(v):
     if isinstance(v, Term):
         return True
@@ -405,7 +416,7 @@ class Interp(object):
                     else:
                         if len(e.ops) != 1:
                             raise Undetermined("chained symbolic comparison")
-                        return Term("cmp", _CMP_NAME[type(o)], l, r)
+                        return canon_cmp(_CMP_NAME[type(o)], l, r)
                 else:
                     v = _CMP[type(o)](l, r)
                 if not v:
